@@ -3,6 +3,8 @@ PYTHONPATH=/repo).  The module attribute `random` of rig.geometry and of
 rig.place_and_route.route.utils is replaced (from outside, no edit of /repo) by a scripted object whose
 draws are given by the case and whose consumption is logged."""
 import importlib
+import numbers
+import operator
 
 import rig.geometry as geometry
 from rig.links import Links
@@ -27,9 +29,15 @@ class Scripted(object):
         return k / 2.0 ** 53
 
     def randint(self, lo, hi):
+        lo, hi = operator.index(lo), operator.index(hi)     # as random.randint does (numpy ints accepted)
         if hi < lo:
             raise ValueError("empty range for randint")
-        r = lo + self.t % (hi - lo + 1)
+        if self.t == "lo":                                  # forced outcomes: each end of the range
+            r = lo
+        elif self.t == "hi":
+            r = hi
+        else:
+            r = lo + self.t % (hi - lo + 1)
         self.requests.append([lo, hi, r])
         return r
 
@@ -39,12 +47,38 @@ def t3(v):
 
 
 def ints(v):
+    """results as Python ints; numpy integers (what the library returns for numpy coordinates) are
+    integers too, floats and bools are not"""
     out = []
     for c in v:
-        if type(c) is not int:
-            raise TypeError("component %r is not an int" % (c,))
-        out.append(c)
+        if isinstance(c, bool) or not isinstance(c, numbers.Integral):
+            raise TypeError("component %r is not an integer" % (c,))
+        out.append(int(c))
     return out
+
+
+def coord(c, key):
+    """the coordinate c[key] in the container the case asks for (c["forms"][key]): the library only
+    indexes / unpacks its coordinate arguments, so every integer sequence is inside the domain"""
+    v = list(c[key])
+    form = c.get("forms", {}).get(key, "tuple")
+    if form == "tuple":
+        return tuple(v)
+    if form == "list":
+        return v
+    if form == "ndarray":
+        import numpy
+        return numpy.array(v, dtype=numpy.int64)
+    if form == "ndarray32":
+        import numpy
+        return numpy.array(v, dtype=numpy.int32)
+    if form == "row":                     # a row of an (n, len) table
+        import numpy
+        return numpy.array([v, v], dtype=numpy.int64)[1]
+    if form == "npscalars":
+        import numpy
+        return tuple(numpy.int64(x) for x in v)
+    raise RuntimeError("unknown form " + form)
 
 
 def as_form(v, form):
@@ -139,28 +173,36 @@ def run_case(c):
         return run_history(c)
     try:
         if fn == "mesh_len":
-            r = geometry.shortest_mesh_path_length(t3(c["s"]), t3(c["d"]))
+            r = geometry.shortest_mesh_path_length(coord(c, "s"), coord(c, "d"))
             return ["ok", ints([r])[0]]
         if fn == "mesh_path":
-            return ["ok", ints(geometry.shortest_mesh_path(t3(c["s"]), t3(c["d"])))]
+            return ["ok", ints(geometry.shortest_mesh_path(coord(c, "s"), coord(c, "d")))]
         if fn == "torus_len":
-            r = geometry.shortest_torus_path_length(t3(c["s"]), t3(c["d"]), c["w"], c["h"])
+            r = geometry.shortest_torus_path_length(coord(c, "s"), coord(c, "d"), c["w"], c["h"])
             return ["ok", ints([r])[0]]
         if fn == "torus_path":
             rnd = Scripted(c["ks"], c["t"])
             geometry.random = rnd
-            v = geometry.shortest_torus_path(t3(c["s"]), t3(c["d"]), c["w"], c["h"])
+            v = geometry.shortest_torus_path(coord(c, "s"), coord(c, "d"), c["w"], c["h"])
             return ["ok", dict(v=ints(v), nrandom=rnd.nrandom, requests=rnd.requests)]
         if fn == "ldf":
             rnd = Scripted(c["ks"])
             route_utils.random = rnd
-            out = route_utils.longest_dimension_first(t3(c["v"]), tuple(c["start"]), c["width"], c["height"])
+            out = route_utils.longest_dimension_first(coord(c, "v"), coord(c, "start"), c["width"], c["height"])
             res = []
             for direction, xy in out:
                 if not isinstance(direction, Links):
                     raise TypeError("direction %r is not a Links member" % (direction,))
                 res.append([int(direction), ints(xy)])
             return ["ok", dict(out=res, nrandom=rnd.nrandom)]
+        if fn == "from_vector":
+            try:
+                l = Links.from_vector(coord(c, "v"))
+            except KeyError:
+                return ["ok", None]
+            if not isinstance(l, Links):
+                raise TypeError("%r is not a Links member" % (l,))
+            return ["ok", int(l)]
         if fn == "links":
             members = [[int(l), int(l.opposite), ints(l.to_vector()), l.opposite.__class__ is Links]
                        for l in Links]
@@ -175,12 +217,12 @@ def run_case(c):
                         fv.append([x, y, None])
             return ["ok", dict(members=members, from_vector=fv)]
         if fn == "to_xyz":
-            return ["ok", ints(geometry.to_xyz(tuple(c["xy"])))]
+            return ["ok", ints(geometry.to_xyz(coord(c, "xy")))]
         if fn == "minimise":
-            return ["ok", ints(geometry.minimise_xyz(t3(c["v"])))]
+            return ["ok", ints(geometry.minimise_xyz(coord(c, "v")))]
         if fn == "hex":
             out = []
-            for xy in geometry.concentric_hexagons(c["radius"], tuple(c["start"])):
+            for xy in geometry.concentric_hexagons(c["radius"], coord(c, "start")):
                 out.append(ints(xy))
                 if len(out) > 100000:
                     raise RuntimeError("more than 100000 hexagons")
